@@ -437,19 +437,19 @@ def C04(V, tier):
     rng = random.Random(seed() + 4)
     q = tier == "quick"
     progs = []
-    progs += gen.fan_programs(rng, 18 if q else 120)
-    progs += gen.join_programs(rng, 14 if q else 120)
-    progs += gen.loop_programs(rng, 16 if q else 150)
-    progs += gen.loop_programs(rng, 10 if q else 100, nested=False, side=True)
-    progs += gen.agg_programs(rng, 14 if q else 100)
+    progs += gen.fan_programs(rng, 12 if q else 120)
+    progs += gen.join_programs(rng, 10 if q else 120)
+    progs += gen.loop_programs(rng, 12 if q else 150)
+    progs += gen.loop_programs(rng, 8 if q else 100, nested=False, side=True)
+    progs += gen.agg_programs(rng, 8 if q else 100)
     for i, p in enumerate(progs):
         p["name"] = f"t{i}_" + p["name"]
     # stress: enlarge the par_range sources (100..400 elements >> 16 batches per link)
     for p in progs:
         for n in p["prog"]["nodes"]:
             if n["op"] == "src" and n.get("kind") == "par_range" and n["hi"] - n["lo"] >= 5 and "loop" not in p["name"]:
-                n["hi"] = n["lo"] + rng.choice([100, 250, 400])
-    extra = _programs(20 if q else 200, seed() + 404, "C04", max_ops=6)
+                n["hi"] = n["lo"] + (rng.choice([80, 120, 200]) if q else rng.choice([100, 250, 400]))
+    extra = _programs(12 if q else 200, seed() + 404, "C04", max_ops=6)
     for p in extra:
         p["name"] = "g" + p["name"]
     progs += extra
@@ -459,7 +459,127 @@ def C04(V, tier):
     if not q:
         matrix += [({"mode": "local", "par": 4}, "single"), ({"mode": "remote", "hosts": [2, 2]}, "fixed:1"),
                    ({"mode": "remote", "hosts": [1, 3]}, "adaptive:3:200")]
-    _focused(V, tier, "C04", progs, checks=("result", "link"), matrix=matrix, perturb_us=300, hang_ms=12000)
+    _focused(V, tier, "C04", progs, checks=("sinks", "link"), matrix=matrix, perturb_us=300, hang_ms=12000)
+
+
+# ------------------------------------------------------------------------------------------------
+# C20: fail-stop
+
+CRASHABLE = {"map", "filter", "flat_map", "kmap", "kfold", "fold"}
+
+
+def C20(V, tier):
+    from common import run_jobs, read_trace, split_trace_files, validate_parallel
+    wd = workdir("C20")
+    rng = random.Random(seed() + 20)
+    q = tier == "quick"
+    base = []
+    base += gen.fan_programs(rng, 12 if q else 60)
+    base += gen.join_programs(rng, 10 if q else 60)
+    base += gen.agg_programs(rng, 12 if q else 60)
+    base += [{"name": f"gen{i}", "prog": pr, "sinks": sk} for i, (pr, sk) in
+             enumerate(gen.gen_program(seed() * 13 + i, max_ops=6, allow_loops=False) for i in range(14 if q else 80))]
+    configs = [({"mode": "local", "par": 1}, "default"), ({"mode": "local", "par": 3}, "single"),
+               ({"mode": "remote", "hosts": [2, 1]}, "default"), ({"mode": "remote", "hosts": [1, 2]}, "fixed:2")]
+    if not q:
+        configs += [({"mode": "local", "par": 4}, "fixed:1"), ({"mode": "remote", "hosts": [1, 1, 1]}, "single"),
+                    ({"mode": "remote", "hosts": [2, 2]}, "adaptive:2:500")]
+    # make sure the crash points are reachable: no empty inputs
+    import copy
+    base = copy.deepcopy(base)
+    for p in base:
+        for n in p["prog"]["nodes"]:
+            if n["op"] == "src" and n.get("kind") == "par_range" and n["hi"] - n["lo"] < 24:
+                n["hi"] = n["lo"] + 24
+            if n["op"] == "src" and n.get("kind") == "iter" and len(n["data"]) < 12:
+                n["data"] = n["data"] + [rng.randrange(0, 60) for _ in range(12)]
+    # enumerate crash points: (program, crashable node, replica, element index)
+    progs = []
+    for p in base:
+        nodes = [n for n in p["prog"]["nodes"] if n["op"] in CRASHABLE]
+        if not nodes:
+            continue
+        pts = []
+        for n in nodes:
+            for gid in (-1, -1, 0):
+                for at in (0, 1, 3):
+                    pts.append((n["id"], gid, at))
+        rng.shuffle(pts)
+        for (node, gid, at) in pts[: (2 if q else 6)]:
+            progs.append({"name": f"{p['name']}@{node}.{gid}.{at}", "prog": p["prog"], "sinks": p["sinks"],
+                          "crash": {"node": node, "gid": gid, "at": at}})
+    jobs = jobsuite.make_jobs(progs, configs, trace=True, keep=["probe", "worker", "exec_end"],
+                              base_seed=seed(), hang_ms=12000)
+    results, traces = run_jobs(jobs, wd, timeout=900)
+    # the execution graph (blocks, edges, placement) of every (program, config)
+    gcases = [{"id": j["id"], "prog": j["prog"], "cfg": j["cfg"]} for j in jobs]
+    os.makedirs(wd + "/g", exist_ok=True)
+    gres, _ = run_jobs(gcases, wd + "/g", cmd="graph", timeout=600)
+    jobs_by_id = {j["id"]: j for j in jobs}
+    # which blocks crashed first / which block holds which probe: from the traces
+    info = {}
+    for t in traces:
+        cur = None
+        for e in read_trace(t):
+            ev = e.get("ev")
+            if ev == "job":
+                cur = e["id"]
+                info[cur] = {"probe_block": {}, "crashed": []}
+            elif ev == "probe":
+                info[cur]["probe_block"].setdefault(e["id"], int(e["at"].split(".")[0]))
+            elif ev == "worker" and e.get("what") == "crash":
+                b, h, _r = (int(x) for x in e["at"].split("."))
+                info[cur]["crashed"].append({"b": b, "h": h})
+    recs = []
+    triggered = 0
+    for jid, r in results.items():
+        j = jobs_by_id[jid]
+        injected = any("verif: injected crash" in p for p in r.get("panics", []))
+        if not injected and not r.get("hang"):
+            continue   # the crash point was not reached on this configuration: an ordinary run
+        triggered += 1
+        g = gres.get(jid)
+        inf = info.get(jid, {"probe_block": {}, "crashed": []})
+        # the block of the injected operator: the first worker that crashed (the others crash later
+        # because their channels were dropped)
+        cb = inf["crashed"][0]["b"] if inf["crashed"] else None
+        if g is None or any(d.get("panic") for d in g["dumps"]) or cb is None:
+            continue
+        d0 = g["dumps"][0]
+        edges = [{"from": b["id"], "to": n[0]} for b in d0["blocks"] for n in b["next"]]
+        replicas = [{"b": b["id"], "h": x["host"]} for b in d0["blocks"] for x in b["replicas"]]
+        sinks = []
+        for h in r.get("hosts", []):
+            for sk in h.get("sinks", []):
+                if sk["kind"] not in jobsuite.STREAM_OUTPUT_SINKS:
+                    continue   # collect_channel / for_each stream by contract (DESIGN.md 2.9)
+                node = next(n for n in j["prog"]["nodes"] if n["id"] == sk["id"])
+                inb = inf["probe_block"].get(node["in"][0])
+                if inb is None:
+                    continue
+                sinks.append({"id": sk["id"], "b": inb, "published": sk["res"] is not None, "h": h.get("host", 0)})
+        hosts = [{"h": h.get("host", 0), "failed": not h.get("ok", False)} for h in r.get("hosts", [])]
+        # the replicas whose own user function panicked: crashed workers of the injected block
+        failed = [c for c in inf["crashed"] if c["b"] == cb]
+        if not failed:
+            continue
+        recs.append({"ev": "case", "id": jid, "crashed": failed, "edges": edges, "replicas": replicas,
+                     "hosts": hosts, "sinks": sinks,
+                     "hung": bool(r.get("hang")) or r.get("lingering", 0) > 0})
+        recs.append({"ev": "done", "id": jid})
+    files = split_trace_files(recs, wd, "crash", max_events=400)
+    viols, consumed, states, _ = validate_parallel("CrashCheck", files, wd)
+    for v in viols:
+        V.add_violation(v, replay=jobs_by_id.get(v.get("job")))
+    V.coverage["states"] += states
+    V.coverage["transitions"] += states
+    V.coverage["traces_validated_against_impl"] += len(recs) // 2
+    V.coverage["crash_points_run"] = len(jobs)
+    V.coverage["crash_points_triggered"] = triggered
+    if recs:
+        V.sample({k: recs[0][k] for k in ("id", "crashed", "hosts", "sinks")})
+    if triggered < len(jobs) // 5:
+        raise ToolError(f"only {triggered} of {len(jobs)} crash points triggered: vacuous")
 
 
 def replay(pid, path, V):
